@@ -11,6 +11,18 @@
  */
 #include "lib/lpc/otable.c"
 #include "vh.h"
+#include <time.h>
+#include "src/main.h"
+
+extern void verif_tick (void);
+
+/* call_heart_beat() reads the clock: keep the virtual epoch (the harness never moves current_time) */
+time_t time (time_t * t)
+{
+  if (t)
+    *t = (time_t) VH_T0;
+  return (time_t) VH_T0;
+}
 
 extern object_t *obj_list, *obj_list_destruct;
 extern object_t **hashed_living;
@@ -376,6 +388,26 @@ static int c08_cmd (char *line)
       c08_apply ("top", 1, a, &err);
       if (err)
         vh_out ("r top !err");
+      walk_check ();
+      return 1;
+    }
+  if (n == 1 && !strcmp (tok[0], "tick"))
+    {
+      /* one timer tick: the real call_heart_beat() (heart beats only), with backend()'s error recovery */
+      error_context_t econ;
+      MAIN_OPTION (timer_flags) = TIMER_FLAG_HEARTBEAT;
+      save_context (&econ);
+      if (!setjmp (econ.context))
+        {
+          verif_tick ();
+          pop_context (&econ);
+        }
+      else
+        {
+          restore_context (&econ);
+          pop_context (&econ);
+          vh_out ("r tick !err");
+        }
       walk_check ();
       return 1;
     }
